@@ -235,7 +235,13 @@ class Session:
         return obs
 
     def close(self):
-        res = self._run(self.p.close())
+        async def closing():
+            try:
+                await self.p.close()
+                return ('ok', None)
+            except BaseException as e:  # noqa: BLE001 - close() raising is an observation, not a harness failure
+                return ('exc', type(e).__name__, str(e)[:80])
+        res = self._run(closing())
         self.loop.settle(0)
         return res
 
